@@ -277,6 +277,42 @@ def signature_invariance(F, rep, rule):
                "" if g == want else "eq_complex under signature_check answers %s: a `fn([int...])` passes for a `fn([int?...])` and is called with a list that holds nil" % g,
                eqc[0].span, fn=eqc[0].path, key=key)
     rep.floor(rule + " element-type evaluations", m, 6)
+    container_invariance(F, rep, eqc[0], fl, ty)
+
+
+def container_invariance(F, rep, eqc, fl, ty, rule="C03.container-invariance"):
+    """A list or a map is shared and mutable: where a `map[int, int?]` is expected, a `map[int, int]` is a wrong type (the callee may store nil
+    into it, and the owner reads an int).  The directional tolerance of eq_complex (`T?` accepts `T`) must therefore not reach the parts of two
+    container types.  Decided by evaluating eq_complex, with the flags of an ordinary comparison, on pairs of container types that differ in the
+    optionality of a part only (expected: different) and on equal pairs (expected: the same)."""
+    import tables
+    from props import _hashkeys
+    from absint import Interp, Variant, FALSE, NONE
+    flags = Variant("compiler::ast::r#type::TypecheckFlags", 0, "TypecheckFlags", [NONE if x["name"] == "executing_class" else FALSE for x in fl["variants"][0]["fields"]])
+    m = 0
+    for a, b, want in ((("MapOf", "Int", ("Opt", "Int")), ("MapOf", "Int", "Int"), False), (("MapOf", ("Opt", "Int"), "Int"), ("MapOf", "Int", "Int"), False),
+                       (("MapOf", "Int", "Int"), ("MapOf", "Int", ("Opt", "Int")), False), (("MapOf", "Int", "Int"), ("MapOf", "Int", "Int"), True),
+                       (("MapOf", "Int", ("Opt", "Int")), ("MapOf", "Int", ("Opt", "Int")), True),
+                       (("Open", ("Opt", "Int")), ("Open", "Int"), False), (("Open", "Int"), ("Open", ("Opt", "Int")), False), (("Open", "Int"), ("Open", "Int"), True)):
+        ms_ = dict(tables.MODELS)
+        ms_.update(_hashkeys._iter_models())
+        it = Interp(F, models=ms_, max_depth=12, max_paths=2048, loop_bound=8)
+        try:
+            outs = it.run(eqc, [ty.build(a, "a"), ty.build(b, "b"), flags])
+            got = {bool(o.value.v) if (o.kind == "return" and hasattr(o.value, "v")) else "?" for o in outs}
+        except (ValueError, KeyError):
+            got = {"?"}
+        key = "%s|%s|%s" % (rule, _hashkeys.show(a), _hashkeys.show(b))
+        label = "a %s slot and a %s value: %s" % (_hashkeys.show(a), _hashkeys.show(b), "accepted" if want else "refused")
+        if it.exhausted or "?" in got or len(got) != 1:
+            rep.ob(rule, label, "undecided", "eq_complex not evaluated: %s" % sorted(map(str, got)), eqc.span, fn=eqc.path, key=key)
+            continue
+        m += 1
+        g = got.pop()
+        rep.ob(rule, label, "ok" if g == want else "violated",
+               "" if g == want else ("eq_complex answers %s: the value is shared with its owner, and what the receiver may store through the wider type (nil) "
+                                     "the owner reads through the narrower one" % g), eqc.span, fn=eqc.path, key=key)
+    rep.floor(rule + " evaluations", m, 7)
 
 
 def return_scope(F, rep):
